@@ -412,7 +412,10 @@ def r20_3(ctx: Ctx, R: Resolver):
                     # some literal that holds on this path says "the name is not in <something called exclude...>"
                     if any("exclude" in t_ and " in " in t_ and pol_ is False for t_, pol_ in _cj(ev[1], ev[2])):
                         seen_excl = True
-                    if "exclude" in norm(ev[1]) and " in " in norm(ev[1]) and " not in " not in norm(ev[1]) and ev[2] is False:
+                    tt_, oo_ = ev[1], ev[2]
+                    while isinstance(tt_, ast.UnaryOp) and isinstance(tt_.op, ast.Not):
+                        tt_, oo_ = tt_.operand, not oo_
+                    if "exclude" in norm(tt_) and " in " in norm(tt_) and " not in " not in norm(tt_) and oo_ is False:
                         seen_excl = True        # `<exclusion list given> and name in <list>` evaluated false
                 if ev[0] == "s" and isinstance(ev[1], ast.Expr) and isinstance(ev[1].value, ast.Call) \
                         and call_name(ev[1].value) == "append" and not seen_excl:
@@ -420,10 +423,13 @@ def r20_3(ctx: Ctx, R: Resolver):
     argsv = ([b_["V_a"] for _, b_ in pfind(main.node, "V_a = V_p.parse_args()")] + ["args"])[0]
     loopv = norm(loops[0].target) if loops else "molecule_name"
     excl = [n_ for n_ in (walk_no_nested(loops[0]) if loops else []) if isinstance(n_, ast.If) and "exclude" in norm(n_.test)]
-    exact = bool(excl) and norm(excl[0].test).replace(" ", "").replace("(", "").replace(")", "") in (
-        ("%s.exclude is not None and %s in %s.exclude" % (argsv, loopv, argsv)).replace(" ", ""),
-        ("%s in %s.exclude and %s.exclude is not None" % (loopv, argsv, argsv)).replace(" ", "")) \
-        and isinstance(excl[0].body[-1], ast.Continue)
+    from ..cfg import canon_test as _ct3
+    want_x = _ct3(ast.parse("%s.exclude is not None and %s in %s.exclude" % (argsv, loopv, argsv), mode="eval").body, False)
+    apps_ = [s_ for s_ in (walk_no_nested(loops[0]) if loops else []) if isinstance(s_, ast.Expr) and isinstance(s_.value, ast.Call)
+             and call_name(s_.value) == "append"]
+    pml_ = parents_map(loops[0]) if loops else {}
+    # the append sits where "an exclusion list was given and the name is in it" is false (guard clause or nesting alike)
+    exact = bool(excl) and bool(apps_) and all(want_x in cguards_of(a_, pml_) for a_ in apps_)
     okx_path = okx
     okx = okx and exact
     # explicit species: the list starts from --mol when given
